@@ -72,9 +72,9 @@ impl Table {
 
 /// Environment of one search thread, owned by the harness.
 pub trait SearchHook: Send {
-    /// Called where the search decides whether to poll its command channel.
-    /// `None` = original rule (every 100 000 negamax nodes).
-    fn poll(&mut self, negamax_nodes: u64) -> Option<bool>;
+    /// Called right after the search decided whether to poll its command channel at this node;
+    /// `original` is that decision (the product's own rule, still evaluated). `None` keeps it.
+    fn poll(&mut self, negamax_nodes: u64, original: bool) -> Option<bool>;
     /// Called wherever the search reads its clock. `None` = real elapsed time.
     fn elapsed(&mut self, total_nodes: u64) -> Option<Duration>;
     /// The search thread's own position, published before a search starts and before bestmove is sent.
@@ -102,8 +102,8 @@ pub(crate) fn claim() {
     LOCAL.with(|local| *local.borrow_mut() = hook);
 }
 
-pub(crate) fn poll(negamax_nodes: u64) -> Option<bool> {
-    LOCAL.with(|local| local.borrow_mut().as_mut().and_then(|hook| hook.poll(negamax_nodes)))
+pub(crate) fn poll(negamax_nodes: u64, original: bool) -> bool {
+    LOCAL.with(|local| local.borrow_mut().as_mut().and_then(|hook| hook.poll(negamax_nodes, original))).unwrap_or(original)
 }
 
 pub(crate) fn elapsed(total_nodes: u64) -> Option<Duration> {
